@@ -21,7 +21,7 @@ ASSUMPTIONS = ["gob cannot encode nil pointer elements: pointer columns carry no
                "as intact or damaged)"]
 
 KINDS = ["i64", "i32", "i16", "i8", "u8", "u16", "u32", "u64", "int", "str", "f64", "f32", "bool", "bytes", "st", "pt", "sl", "arr", "cc", "mp",
-         "st", "sl", "mp"]   # gob-decoded composite kinds twice: they are decoded into (possibly reused) memory
+         "st", "sl", "mp", "s3", "s3"]   # gob-decoded composite kinds twice: they are decoded into (possibly reused) memory
 
 
 def gen_stream(r, maxb, maxrows):
@@ -32,7 +32,7 @@ def gen_stream(r, maxb, maxrows):
         rows = []
         for _ in range(r.choice([0, 1, 1, 2, 3, r.rng(0, maxrows)])):
             rows.append(",".join(str(r.below(2) if k == "bool" else (r.rng(1, 90) if k == "pt" else
-                                     (r.choice([0, 0, r.rng(0, 90)]) if k in ("st", "sl", "mp", "bytes", "str") else r.rng(0, 90)))) for k in kinds))
+                                     (r.choice([0, 0, r.rng(0, 90)]) if k in ("st", "sl", "mp", "bytes", "str", "s3") else r.rng(0, 90)))) for k in kinds))
         bs.append("B " + "|".join(rows) if rows else "B")
     dest = " ".join(str(r.rng(1, 12)) for _ in range(r.rng(1, 3)))
     return "K %s ; %s ; DEST %s" % (",".join(kinds), " ; ".join(bs) if bs else "B", dest)
